@@ -212,7 +212,8 @@ def cause_of(row):
 
 def oracle(case, obs):
     """-> list of (signature, message, detail). Row-wise both-or-neither on the daily frame when usage was carried;
-    column sums vs row-wise savings sum (1e-9 relative) on every frame."""
+    a row that keeps usage must carry a finite prediction, a row without a usable temperature none; column sums vs row-wise
+    savings sum (1e-9 relative) on every frame, a non-finite column total being a failure."""
     fails = []
     if not obs["has_obs"]:
         return fails
@@ -222,40 +223,51 @@ def oracle(case, obs):
     causes = set()
     rowwise = None
     if daily is not None and "err" not in daily:
-        rowwise = Fraction(0)
+        rowwise = Fraction(0)       # over the rows that carry two finite values
         kept_obs = Fraction(0)      # usage on rows without prediction: what the known dropped-row findings explain
-        finite_rows = True
         for t, o, p in zip(daily["ts"], daily["obs"], daily["pred"]):
             has_o, has_p = o != "nan", p != "nan"
-            if has_o and has_p:
-                if isinstance(o, str) or isinstance(p, str):
-                    finite_rows = False
-                else:
-                    rowwise += Fraction(p[0], p[1]) - Fraction(o[0], o[1])
+            src = by_ts.get(t)
+            c = cause_of(src) if src is not None else "row not in the input"
+            if has_o and has_p and not isinstance(o, str) and not isinstance(p, str):
+                rowwise += Fraction(p[0], p[1]) - Fraction(o[0], o[1])
+            if has_o and isinstance(p, str) and has_p:
+                # "masked together": a row that keeps its usage must carry a usable prediction
+                fails.append((dict(base, defect="observed present and predicted not finite", cause=c, where="daily frame"),
+                              "a day (%s) has an observed value and predicted = %s" % (c, p),
+                              {"ts": t, "observed": o, "predicted": p, "input_row": src}))
+            if has_p and src is not None and src[2] in ("nan", "inf", "-inf"):
+                # a day whose temperature is not a usable number gets no prediction
+                fails.append((dict(base, defect="prediction on a row without a usable temperature", cause=c, where="daily frame"),
+                              "a day (%s) got predicted = %s" % (c, p if isinstance(p, str) else p[0] / p[1]),
+                              {"ts": t, "observed": o, "predicted": p, "input_row": src}))
             if has_o and not has_p:
-                c = cause_of(by_ts[t]) if t in by_ts else "row not in the input"
                 causes.add(c)
                 if not isinstance(o, str):
                     kept_obs += Fraction(o[0], o[1])
                 fails.append((dict(base, defect="observed kept on a row without prediction", cause=c, where="daily frame"),
                               "a day (%s) has an observed value and no prediction" % c,
-                              {"ts": t, "observed": o, "predicted": p, "input_row": by_ts.get(t)}))
+                              {"ts": t, "observed": o, "predicted": p, "input_row": src}))
             if has_p and not has_o:
-                c = cause_of(by_ts[t]) if t in by_ts else "row not in the input"
                 fails.append((dict(base, defect="prediction on a row without usage", cause=c, where="daily frame"),
                               "a day without usage (%s) got a prediction" % c,
-                              {"ts": t, "observed": o, "predicted": p, "input_row": by_ts.get(t)}))
-        if not finite_rows:
-            rowwise = None
+                              {"ts": t, "observed": o, "predicted": p, "input_row": src}))
     # sums: "summing the two columns separately equals summing row-wise savings" — on every aggregation level
     if rowwise is not None:
         for agg, fr in obs["frames"].items():
-            if "err" in fr or isinstance(fr["sum_obs"], str) or isinstance(fr["sum_pred"], str):
-                if "err" not in fr and causes:
-                    continue     # an infinite column total is the same dropped-row finding, already reported row-wise
-                if "err" not in fr:
-                    fails.append((dict(base, defect="non-finite column total", cause="none", where="agg=%s" % agg),
-                                  "column total is not finite although every row with both values is finite", fr["sum_obs"]))
+            if "err" in fr:
+                continue
+            if isinstance(fr["sum_obs"], str) or isinstance(fr["sum_pred"], str):
+                # a non-finite column total can never equal the (finite) row-wise savings sum.  The only explained case:
+                # the usage column itself carries +-inf on a row without prediction (reported row-wise, cause "observed +-inf")
+                if not isinstance(fr["sum_pred"], str) and "observed +-inf" in causes:
+                    continue
+                which = "predicted" if isinstance(fr["sum_pred"], str) else "observed"
+                fails.append((dict(base, defect="non-finite column total", cause=which, where="sums agg=%s" % agg),
+                              "sum(predicted) = %s, sum(observed) = %s: not finite, row-wise savings sum = %s"
+                              % (sd.dec(fr["sum_pred"]), sd.dec(fr["sum_obs"]), float(rowwise)),
+                              {"aggregation": agg, "sum_predicted": fr["sum_pred"], "sum_observed": fr["sum_obs"],
+                               "rowwise": float(rowwise)}))
                 continue
             sep = Fraction(*fr["sum_pred"]) - Fraction(*fr["sum_obs"])
             scale = max(1, abs(Fraction(*fr["sum_pred"])), abs(Fraction(*fr["sum_obs"])))
